@@ -475,10 +475,10 @@ def run(rep):
     rep.assumptions = ["times are integer milliseconds in the spec, floats in the code; 0.3 s is the only inexact value and never sits on a zero-budget boundary",
                        "TLS handshake replaced by a no-op (the https pool's own connect path is real); direct pools only (CONNECT tunnels are outside the quantifier)",
                        "TLC 1.8, CPython and vh/net.py are trusted"]
-    plans = ([("A", "PA", "MCDurationsEdge"), ("B", "PB", "MCDurations")] if quick else
+    plans = ([("A", "PQ", "MCDurationsEdge"), ("B", "PB", "MCDurations")] if quick else
              [("A", "PA", "MCDurationsEdge"), ("B", "PC", "MCDurations"), ("D", "PD", "MCDurations")])
-    chunk = 2500 if quick else 5000
-    nrand, per = (4000, 500) if quick else (96000, 3000)
+    chunk = 4000 if quick else 6000
+    nrand, per = (4000, 1000) if quick else (96000, 4000)
     total_classes = collections.Counter()
     emitted = replayed = 0
     with mp.Pool(min(16, tlc.NCPU)) as pool:
